@@ -29,6 +29,10 @@ type pstream struct {
 }
 
 func (s *pstream) Accept(tcp *layers.TCP, ci gopacket.CaptureInfo, dir reassembly.TCPFlowDirection, nextSeq reassembly.Sequence, start *bool, ac reassembly.AssemblerContext) bool {
+	if s.EnterLight() {
+		runtime.Gosched()
+		s.LeaveLight()
+	}
 	return true
 }
 
@@ -51,6 +55,9 @@ func (s *pstream) ReassemblyComplete(ac reassembly.AssemblerContext) bool {
 		return true
 	}
 	defer s.Leave()
+	for i := 0; i < 3; i++ {
+		runtime.Gosched() // a completion callback that takes a moment: other assemblers get to run meanwhile
+	}
 	s.Complete()
 	return true
 }
